@@ -81,6 +81,7 @@ def run(tier, replay=None):
         libs += [(k, n, b) for k, b in user for n in (3, 4)]
         libs += [("verif_sq", 5, [["x", "a"], ["square"], ["+"]]), ("verif_mulpow", 7, [["x", "a"], [], ["*", "pow"]]), ("verif_addmul", 7, [["x", "a"], [], ["+", "*"]]), ("verif_mulsub", 7, [["x", "a"], [], ["*", "-"]]),
                  ("verif_invlog", 5, [["x", "a"], ["inv", "log_abs"], ["+", "-", "*"]])]
+    libs.append(("core_maths", 4, None))          # a second time: generated again into the directory that holds the first generation
     tested = False
     for name, n, basis in libs:
         L, _ = common.gen_library(r, s, name, n, basis=basis)
